@@ -610,6 +610,28 @@ class IntDom:
                         return self.mk_u(n, self.U(x) - self.U(x) % (inv + 1))
                     if y.c == 1 << (n - 1):
                         return self.mk_u(n, z3.If(self.U(x) >= y.c, z3.IntVal(y.c), z3.IntVal(0)))
+                    # constant mask made of a few contiguous runs of ones: and = sum over runs of the bit field
+                    runs = []
+                    m_, pos_ = y.c, 0
+                    while m_:
+                        if m_ & 1:
+                            st_ = pos_
+                            while m_ & 1:
+                                m_ >>= 1
+                                pos_ += 1
+                            runs.append((st_, pos_))
+                        else:
+                            m_ >>= 1
+                            pos_ += 1
+                    if len(runs) <= 4:
+                        ux = self.U(x)
+                        e_ = None
+                        for (lo_b, hi_b) in runs:
+                            t_ = ux % (1 << hi_b) if hi_b < n else ux
+                            if lo_b:
+                                t_ = (t_ / (1 << lo_b)) * (1 << lo_b)
+                            e_ = t_ if e_ is None else e_ + t_
+                        return self.mk_u(n, e_)
             if n == 1:
                 raise IntUnsupported("i1 as IV")
             return self._and_sign(a, b)
